@@ -43,6 +43,16 @@ type Env struct {
 	// ghost per-iteration state of enclosing loops (innermost last)
 	loopIdx []Term
 	visited []Term
+	// private: backing arrays (of scalar elements) allocated by the function being
+	// verified whose reference has not left its local variables yet - no callee
+	// can reach them, so their contents survive a whole-heap havoc
+	private map[string]privArr
+}
+
+type privArr struct {
+	ref  Term
+	comp string
+	sort string
 }
 
 func (e *Env) clone() *Env {
@@ -56,6 +66,12 @@ func (e *Env) clone() *Env {
 	}
 	n.loopIdx = append([]Term(nil), e.loopIdx...)
 	n.visited = append([]Term(nil), e.visited...)
+	if len(e.private) > 0 {
+		n.private = make(map[string]privArr, len(e.private))
+		for k, v := range e.private {
+			n.private[k] = v
+		}
+	}
 	return n
 }
 
@@ -111,11 +127,24 @@ func (fv *FV) havocAll(e *Env) {
 			mono[comp] = fv.heapGet(e, comp, arrSort(sRef, sInt))
 		}
 	}
+	type kept struct {
+		p   privArr
+		old Term
+	}
+	var priv []kept
+	for _, k := range sortedKeys(e.private) {
+		p := e.private[k]
+		priv = append(priv, kept{p, sel(fv.heapGet(e, p.comp, p.sort), p.ref)})
+	}
 	fv.nextEpoch++
 	e.epoch = fv.nextEpoch
 	e.heap = map[string]Term{}
 	for c, t := range keep {
 		fv.heapSet(e, c, t)
+	}
+	for _, k := range priv {
+		// contents of a private array are out of every callee's reach
+		fv.s.assume(implies(e.pc, eq(sel(fv.heapGet(e, k.p.comp, k.p.sort), k.p.ref), k.old)))
 	}
 	for _, c := range sortedKeys(mono) {
 		old := mono[c]
@@ -164,6 +193,14 @@ func (fv *FV) mergeEnvs(envs []*Env) *Env {
 		return live[0]
 	}
 	m := live[0].clone()
+	for k := range m.private {
+		for _, o := range live[1:] {
+			if _, ok := o.private[k]; !ok {
+				delete(m.private, k)
+				break
+			}
+		}
+	}
 	var pcs []Term
 	for _, e := range live {
 		pcs = append(pcs, e.pc)
@@ -364,4 +401,36 @@ func (fv *FV) contractMentions(counter string) bool {
 	}
 	fv.mentionMemo[counter] = found
 	return found
+}
+
+// markPrivate records a backing array of scalar elements this function has just
+// allocated (make / append / slice literal).
+func (fv *FV) markPrivate(e *Env, r Term, elem types.Type) {
+	if fv.noPrivate || e.dead || isObjectType(elem) {
+		return
+	}
+	k, es := sortOf(elem)
+	if k != kScalar || es == sStr {
+		return
+	}
+	if e.private == nil {
+		e.private = map[string]privArr{}
+	}
+	e.private[r.S] = privArr{ref: r, comp: "E$" + sanitize(elemKey(elem)), sort: cellSort([]string{sRef, sInt}, es)}
+}
+
+// escape: the value leaves the function's local variables (call argument,
+// store into the heap): its backing array is no longer private.
+func (fv *FV) escape(e *Env, v Value) {
+	if len(e.private) == 0 {
+		return
+	}
+	switch v.K {
+	case kSlice:
+		delete(e.private, v.T.S)
+	case kTuple:
+		for _, t := range v.Tuple {
+			fv.escape(e, t)
+		}
+	}
 }
